@@ -48,7 +48,8 @@ theorem inbound_disable_nonempty (proto : LProto) : (chains .disable proto) ≠ 
 theorem inbound_enforces_permissive (proto : LProto) :
     (∃ c ∈ chains .permissive proto, c.acceptsPlaintext = true ∧ c.terminatesTLS = false) ∧
     (∃ c ∈ chains .permissive proto, c.terminatesMTLS = true) ∧
-    (∀ c ∈ chains .permissive proto, c.terminatesTLS = true → c.sock = .mtls ∧ c.alpn = .istio ∧ c.transportTLS = true) := by
+    (∀ c ∈ chains .permissive proto, c.terminatesTLS = true →
+      c.sock = .mtls ∧ c.alpn ≠ [] ∧ c.alpn.all (fun a => Alpn.allIstio.contains a) = true ∧ c.transportTLS = true) := by
   cases proto <;> decide
 
 /-- In no mode and for no protocol does a chain of the mTLS table terminate TLS without requiring a
@@ -66,6 +67,46 @@ theorem inbound_never_one_way_tls (mode : MTLS) (proto : LProto) :
 theorem inbound_terminate_iff_sock (mode : MTLS) (proto : LProto) (h : mode = .strict ∨ mode = .permissive) :
     ∀ c ∈ chains mode proto, c.terminate = c.terminatesTLS := by
   rcases h with rfl | rfl <;> cases proto <;> decide
+
+/-! ## Per client: which chain Envoy selects (transport protocol, then application protocols) -/
+
+/-- **inbound_enforces_per_client.**  For every mode a resolver can return, every listener protocol and
+    every kind of client, with the REAL application-protocol lists of the chains (tied by
+    `chains_model_eq_impl`) and Envoy's selection stages:
+    * an Istio sidecar originating mutual TLS (TCP with or without metadata exchange, HTTP/1.0, 1.1, 2) is,
+      under STRICT and PERMISSIVE, handed to at least one chain and only to chains terminating mutual TLS
+      - it never falls into the TLS pass-through chain;
+    * a plaintext client is, under PERMISSIVE and DISABLE, handed to a plaintext chain that terminates
+      nothing, and under STRICT to no chain at all;
+    * under STRICT whatever is selected terminates mutual TLS; under PERMISSIVE TLS that is not Istio's is
+      never terminated; under DISABLE nothing is terminated. -/
+theorem inbound_enforces_per_client (mode : MTLS) (hm : mode ≠ .unknown) (proto : LProto) (k : Client) :
+    (k.isMTLS = true → mode ≠ .disable →
+      selectChains (chains mode proto) k.conn ≠ [] ∧
+      ∀ c ∈ selectChains (chains mode proto) k.conn, c.terminatesMTLS = true) ∧
+    (k.isPlain = true → mode ≠ .strict →
+      selectChains (chains mode proto) k.conn ≠ [] ∧
+      ∀ c ∈ selectChains (chains mode proto) k.conn, c.acceptsPlaintext = true ∧ c.terminatesTLS = false) ∧
+    (k.isPlain = true → mode = .strict → selectChains (chains mode proto) k.conn = []) ∧
+    (mode = .strict → ∀ c ∈ selectChains (chains mode proto) k.conn, c.terminatesMTLS = true) ∧
+    (mode = .permissive → k.isMTLS = false → ∀ c ∈ selectChains (chains mode proto) k.conn, c.terminatesTLS = false) ∧
+    (mode = .disable → ∀ c ∈ selectChains (chains mode proto) k.conn, c.terminatesTLS = false) := by
+  cases mode with
+  | unknown => exact absurd rfl hm
+  | disable => cases proto <;> cases k <;> decide
+  | permissive => cases proto <;> cases k <;> decide
+  | strict => cases proto <;> cases k <;> decide
+
+/-- On a sniffed (auto) port an Istio HTTP client gets the HTTP chain and an Istio TCP client the TCP chain. -/
+theorem inbound_auto_protocol_split (mode : MTLS) (hm : mode = .strict ∨ mode = .permissive) :
+    (∀ k ∈ [Client.mtlsHTTP10, .mtlsHTTP11, .mtlsH2], ∀ c ∈ selectChains (chains mode .auto) k.conn, c.http = true) ∧
+    (∀ k ∈ [Client.mtlsTCP, .mtlsTCPNoMx], ∀ c ∈ selectChains (chains mode .auto) k.conn, c.http = false) := by
+  rcases hm with rfl | rfl <;> decide
+
+/-- The filter chain matches of one cell are pairwise different (transport protocol, application protocols). -/
+theorem cell_matches_distinct (mode : MTLS) (proto : LProto) :
+    (chains mode proto).Pairwise (fun a b => (a.transportTLS, a.alpn) ≠ (b.transportTLS, b.alpn)) := by
+  cases mode <;> cases proto <;> decide
 
 /-- **inbound_enforces**, tied to the effective mode: the filter chains generated for a workload
     port (mode = the resolver's mode for that port, which is `effectiveMode`) admit plaintext iff
